@@ -148,7 +148,7 @@ def generate_files(cfg, kind, db, **over):
     """{file name: text} written by <Generator>(...).generate_files('OUT') on the tagged database"""
     import os
     rel, cls = GENERATORS[kind]
-    ev = PyEval(cfg)
+    ev = PyEval(cfg, max_steps=over.pop('max_steps', 400000))
     files = capture(ev)
     mod = ev.module(rel)
     vals = with_sizes(db)
